@@ -3,7 +3,7 @@
 (* C18 -- trace layer.  One ndjson line per case served by the REAL router *)
 (* (kprapi.Server.setupRouter, hooked), with the observations of each      *)
 (* repetition of the request:                                              *)
-(*   {m, t, sps, w, target, obs: [{status, bk, effect, panic}, ...]}       *)
+(*   {m, t, sps, w, h, target, obs: [{status, bk, effect, panic}, ...]}    *)
 (*   pass A  viol : <<line, monitor>> for every monitor of HttpGateProps   *)
 (*                  that is false on the observed case                     *)
 (*   pass B  drift: lines whose target is not the one the spec builds for  *)
@@ -26,7 +26,8 @@ SpecAllows(line) ==
     LET p == SpellAll(BasePath(Tpl(line.t)), line.sps) IN
     /\ ApplicableAll(BasePath(Tpl(line.t)), line.sps)
     /\ line.target = Target(p)
-    /\ \A i \in DOMAIN line.obs : \E r \in Serve(line.m, p, line.w) : Allowed(line.obs[i], r)
+    /\ line.h \in HdrClasses
+    /\ \A i \in DOMAIN line.obs : \E r \in Serve(line.m, p, line.w, line.h) : Allowed(line.obs[i], r)
 
 TInit == l = 1 /\ viol = {} /\ drift = {}
 
